@@ -58,6 +58,35 @@ def clock_comparisons(ctx):
                 cands = []
                 oc = strip_cast(other)
                 if oc[0] != "c":
+                    # an expression over constants (`MAX - 1`): fold it for every value the constant leaves can take
+                    cleaves = [x for x in leaves(oc) if x[0] == "c"]
+                    others = [x for x in leaves(oc) if x[0] in ("param", "local", "f", "call", "*")]
+                    if others or not cleaves:
+                        continue
+                    from ..expr import subst
+                    generic = [x for x in cleaves if not isinstance(x[1], int) and x[3]]
+                    if not generic:
+                        try:
+                            cands.append((show(oc), fold(oc)))
+                        except Unfoldable:
+                            continue
+                    else:
+                        g = generic[0]
+                        path = g[3]
+                        name = path.rsplit("::", 1)[-1]
+                        default = prog.const_value(path)
+                        impl_types = sorted({i["self_ty"] for i in prog.impls if i.get("trait") == path.rsplit("::", 1)[0]}) or [None]
+                        for it in impl_types:
+                            ov = [c for ck, c in prog.consts.items() if it and ck.endswith("::" + name) and ("<%s as " % it.rsplit("::", 1)[-1]) in ck]
+                            v = ov[0]["value"] if ov else default
+                            if isinstance(v, int):
+                                try:
+                                    cands.append(("%s for %s" % (show(oc), (it or "").rsplit("::", 1)[-1]), fold(subst(oc, {g: ("c", v, g[2], None)}))))
+                                except Unfoldable:
+                                    pass
+                    if cands:
+                        cfg = cfg or Cfg(f)
+                        yield f, bi, s, op, cands, cfg, ex
                     continue
                 if isinstance(oc[1], int) and not isinstance(oc[1], bool):
                     cands.append(((oc[3] or "literal").rsplit("::", 1)[-1], oc[1]))
